@@ -149,6 +149,11 @@ static inline void check_clauses(const Abs& pre, const Abs& post, const Ev& ev, 
             else if (p != NPOS)
                 VF_P(5, 3, post.d[q] >= pre.d[p]);
         }
+    // no call other than the ones C03 allows makes an unexpired entry disappear (it would not be "returned by every
+    // lookup that finishes before t+d"): clean-up, lookups, updates, rejected inserts, erases of other keys keep it
+    for (size_t p = 0; p < AMAX; ++p)
+        if (p < pre.n && !is_exp(pre, p, now) && a_idx(post, pre.k[p]) == NPOS)
+            VF_P(5, 7, (is_erase && r.ok && pre.k[p] == k) || is_clear || (evicting && n_gone == 1));
     if (op == OP_UPDTTL)
     {
         VF_P(5, 4, post.ttl == ttl);
